@@ -66,6 +66,7 @@ type c16Cand struct {
 	Prescribed uint32 // bits the node's own retarget computation yields on the same history (true height)
 	ByClaimed  uint32 // bits the same computation yields for the claimed height
 	PreErr     bool
+	RefViol    string // the node's retarget computation contradicts the independent reference (c16RefRetarget)
 	Judged     bool
 	// xpoa with validator changes
 	Adm    []c16Epoch // validator lists that may govern the block's height (one: unambiguous)
@@ -535,6 +536,9 @@ func (r *c16run) buildCand(st *C16Step, cursor *int64) *c16Cand {
 			panic("c16: plugin is not pow")
 		}
 		c.Prescribed, c.PreErr = bits, err != nil
+		if err == nil {
+			c.RefViol = r.refRetarget(parent, c.TrueHeight, bits)
+		}
 		c.ByClaimed, _, _ = pow.XsimRefresh(r.bplg, parent.Blockid, c.Claimed)
 		c.Bits = bits
 		switch st.BitsVar {
@@ -608,6 +612,90 @@ func (r *c16run) buildCand(st *C16Step, cursor *int64) *c16Cand {
 	return c
 }
 
+// refRetarget judges the bits the node prescribes for a block of height h on top of tip against the
+// retarget rule of the statement, computed independently from the stored chain: at every multiple of
+// the adjustment gap (beyond the first) the target is the previous one scaled by actual / expected
+// time of the last window, the ratio clamped to [1/4, 4]; elsewhere it is the previous target. It
+// returns "" when the node's answer is consistent (or the case is outside what the reference covers).
+func (r *c16run) refRetarget(tip *lpb.InternalBlock, h int64, nodeBits uint32) string {
+	pw := r.p.Pow
+	gap := int64(pw.Gap)
+	if gap < 2 || h <= gap || h%gap != 0 {
+		return ""
+	}
+	pre, err := r.b.L.QueryBlock(tip.PreHash)
+	if err != nil {
+		return ""
+	}
+	far := pre
+	for i := int64(0); i < gap-1; i++ {
+		if far, err = r.b.L.QueryBlock(far.PreHash); err != nil {
+			return ""
+		}
+	}
+	oldBits := uint32(pre.TargetBits)
+	exp := int64(pw.ExpMs) * (gap - 1)
+	actual := (pre.Timestamp - far.Timestamp) / 1e9
+	if exp < 4 || actual < 0 || actual > 1<<30 {
+		return "" // outside the reference (degenerate configuration, time running backwards)
+	}
+	span := actual
+	if span < exp/4 {
+		span = exp / 4
+	}
+	if span > exp*4 {
+		span = exp * 4
+	}
+	r.rc.St.Probes["pow-retarget-judged-by-reference"]++
+	if actual > exp*4 {
+		r.rc.St.Probes["pow-retarget-slow-window-clamped"]++
+	}
+	if actual < exp/4 {
+		r.rc.St.Probes["pow-retarget-fast-window-clamped"]++
+	}
+	if !pw.Bitcoin {
+		// leading-zero style: more bits = harder; 2^old * expected / span, floor(log2), capped at Max
+		d := new(big.Int).Lsh(big.NewInt(1), uint(oldBits))
+		d.Mul(d, big.NewInt(exp))
+		d.Div(d, big.NewInt(span))
+		want := uint32(d.BitLen() - 1)
+		if want > pw.Max {
+			want = pw.Max
+		}
+		if nodeBits != want {
+			return fmt.Sprintf("the window before it took %d s for an expected %d s (ratio clamped to [1/4, 4]): %d leading zero bits scaled accordingly give %d", actual, exp, oldBits, want)
+		}
+		return ""
+	}
+	oldT, ok1 := c16RefTarget(true, oldBits)
+	nodeT, ok2 := c16RefTarget(true, nodeBits)
+	if !ok1 || !ok2 || oldT.Sign() <= 0 {
+		return ""
+	}
+	// never more than a factor 4 easier than the previous target, whatever floor the configuration puts
+	// under it (compact encoding keeps 23 bits of mantissa: tolerance 2^-14)
+	hi := new(big.Int).Mul(oldT, big.NewInt(4))
+	hi.Add(hi, new(big.Int).Rsh(hi, 14))
+	if nodeT.Cmp(hi) > 0 {
+		return fmt.Sprintf("the previous target is %#x and one retarget may ease it by a factor of at most 4 (window took %d s for an expected %d s)", oldBits, actual, exp)
+	}
+	if nodeBits == pw.Max || nodeBits == pw.Default {
+		return "" // the configured floor / default applies: only the bound above is judged
+	}
+	want := new(big.Int).Mul(oldT, big.NewInt(span))
+	want.Div(want, big.NewInt(exp))
+	diff := new(big.Int).Sub(nodeT, want)
+	diff.Abs(diff)
+	tol := new(big.Int).Rsh(want, 14)
+	tol.Add(tol, big.NewInt(1))
+	if diff.Cmp(tol) > 0 {
+		wb, _ := c16RefTarget(true, nodeBits)
+		_ = wb
+		return fmt.Sprintf("the window before it took %d s for an expected %d s (ratio clamped to [1/4, 4]): the previous target %#x scaled accordingly is %x, the node's bits decode to %x", actual, exp, oldBits, want, nodeT)
+	}
+	return ""
+}
+
 // grind searches a nonce. mode 0: id meets both the prescribed and the claimed target (an honest
 // proof); 1: id meets the claimed target but not the prescribed one (when the claim is easier);
 // 2: id misses the claimed target.
@@ -677,6 +765,16 @@ func (r *c16run) execAcc() *Violation {
 				return v
 			}
 		}
+		if held == 0 {
+			for _, at := range p.Restarts {
+				if at == i {
+					if v := r.restartReceiver(); v != nil {
+						return v
+					}
+					break
+				}
+			}
+		}
 		time.Sleep(time.Millisecond) // award transactions are stamped by the clock: it never stands still between two candidates
 		c := r.buildCand(st, &cursor)
 		blk := r.blocks[string(c.ID)]
@@ -695,6 +793,29 @@ func (r *c16run) execAcc() *Violation {
 		}
 		held = 0
 	}
+	return nil
+}
+
+// restartReceiver re-opens the receiving node on (a copy of) its disk, as a process restart does: the
+// consensus plugin is rebuilt from the stored chain and must come up whatever the height.
+func (r *c16run) restartReceiver() (v *Violation) {
+	h := r.tipOf(r.r).Height
+	defer func() {
+		if p := recover(); p != nil {
+			v = r.viol("restart-panics", "re-opening the %s receiver on its own disk at height %d panics: %v", r.kind, h, p)
+		}
+	}()
+	n, err := r.w.NodeOnDisk("r", r.p.RKey, r.r.Disk.Clone())
+	if err != nil {
+		return r.viol("restart-fails", "re-opening the %s receiver on its own disk at height %d fails: %v", r.kind, h, err)
+	}
+	r.rc.OnCleanup(n.Drop)
+	r.r = n
+	r.plug = consensus.XsimCurrent(n.Ctx.Consensus)
+	r.ctx = n.BaseCtx()
+	r.rc.BG = nil
+	r.rc.St.Probes["acc-receiver-restarted"]++
+	r.logf("receiver re-opened at height %d", h)
 	return nil
 }
 
@@ -873,6 +994,9 @@ func (r *c16run) judge(c *c16Cand) *Violation {
 		}
 		if !pok {
 			return r.viol("pow-accepted-invalid-target", "%s accepted with prescribed bits %#x that decode to no valid target", desc, c.Prescribed)
+		}
+		if c.RefViol != "" {
+			return r.viol("pow-retarget-not-prescribed-by-history", "%s accepted with the bits %#x the node itself prescribes at height %d, but %s", desc, c.Prescribed, c.TrueHeight, c.RefViol)
 		}
 		r.rc.St.Probes["acc-entitled-accepted"]++
 		if c.Prescribed != r.p.Pow.Default {
